@@ -1178,7 +1178,7 @@ func (g *G) assignFiles() {
 			if q == "" {
 				q = p.Name
 			}
-			for tries := 0; usedQ[q] || g.topNames[q] || IsKeyword(q) || Predeclared[q] || q == "_"; tries++ {
+			for tries := 0; usedQ[q] || g.declNames[q] || IsKeyword(q) || Predeclared[q] || q == "_"; tries++ {
 				alias = fmt.Sprintf("%s%d", g.Pick(aliasPool), tries)
 				q = alias
 			}
